@@ -139,7 +139,10 @@ class AbstractBenchParser(AbstractParser, metaclass=abc.ABCMeta):
                 _operator == gate.ALWAYS_FALSE.name
                 or _operator == gate.ALWAYS_TRUE.name
             ):
-                return self._processings[_operator](_out)
+                # constants may carry (ignored) operands, e.g. ALWAYS_FALSE(x, x)
+                return self._processings[_operator](
+                    _out, *(operand for operand in _operands if operand != '')
+                )
             return self._processings[_operator](_out, *_operands)
 
         except KeyError:
@@ -220,11 +223,11 @@ class AbstractBenchParser(AbstractParser, metaclass=abc.ABCMeta):
         raise NotImplementedError()
 
     @abc.abstractmethod
-    def _process_always_true(self, out: str):
+    def _process_always_true(self, out: str, *args: str):
         raise NotImplementedError()
 
     @abc.abstractmethod
-    def _process_always_false(self, out: str):
+    def _process_always_false(self, out: str, *args: str):
         raise NotImplementedError()
 
 
@@ -319,8 +322,8 @@ class BenchToCircuit(AbstractBenchParser):
     def _process_riff(self, out: str, arg1: str, arg2: str):
         return self._add_gate(out, gate.RIFF, arg1, arg2)
 
-    def _process_always_true(self, out: str):
-        return self._add_gate(out, gate.ALWAYS_TRUE)
+    def _process_always_true(self, out: str, *args: str):
+        return self._add_gate(out, gate.ALWAYS_TRUE, *args)
 
-    def _process_always_false(self, out: str):
-        return self._add_gate(out, gate.ALWAYS_FALSE)
+    def _process_always_false(self, out: str, *args: str):
+        return self._add_gate(out, gate.ALWAYS_FALSE, *args)
